@@ -151,6 +151,15 @@ func (w *worker) begin() {
 	}
 }
 
+// begin a request that performs no file operation (Get / Browse / Count+BrowseAll): no crash points, and no copy
+// of the directory either (`crashat` then continues on the directory as it is)
+func (w *worker) beginRead() {
+	if len(w.snaps) > 0 {
+		os.RemoveAll(w.root + "/snap")
+		w.snaps = nil
+	}
+}
+
 func openOpts(dir string, t []string) (*qdb.DB, bool) {
 	vol, load := t[0] == "1", t[1] == "1"
 	var n [4]uint64
@@ -334,14 +343,14 @@ func (w *worker) handle(t []string) string {
 		}
 		return "ok ; " + w.state()
 	case "get":
-		w.begin()
+		w.beginRead()
 		v := w.db.Get(key(t[1]))
 		if v == nil {
 			return mut("none")
 		}
 		return mut("some " + vlib.Hex(v))
 	case "browse", "peek":
-		w.begin()
+		w.beginRead()
 		walk := map[uint64]uint32{}
 		if t[0] == "browse" {
 			walk = parseWalk(t[1])
